@@ -425,6 +425,8 @@ def _functional(op, stats, seq):
     n, t = op["n"], op["t"]
     fn = op["fn"]
     path = (torch.randn(n, t, generator=g, dtype=torch.float64) * 0.1).cumsum(1).exp().to(dt)
+    if op["seed"] % 3 == 0:
+        path = path[0].clone()  # a single path passed as a 1-D tensor
     x = torch.randn(n * 3 + 1, generator=g, dtype=torch.float64).to(dt)
     site = "functional:" + fn
     if fn in ("european_payoff", "lookback_payoff", "american_binary_payoff", "european_binary_payoff"):
